@@ -184,7 +184,7 @@ def extraction_cases(rng, n):
                 form = '{%s}'       # no listed macro declares an option
             call = mac + form % w
             ctx = rng.choice(['text', 'brace', 'unknown', 'comment', 'verb',
-                              'skip', 'verbatim', 'par', 'known', 'other'])
+                              'skip', 'verbatim', 'par', 'known', 'other', 'removed', 'env'])
             if ctx == 'text':
                 parts.append('word ' + call + ' word\n')
                 items.append(w)
@@ -196,6 +196,18 @@ def extraction_cases(rng, n):
                 items.append(w)
             elif ctx == 'par':
                 parts.append('\n\n' + call + '\n\n')
+                items.append(w)
+            elif ctx == 'removed':
+                # an environment whose text is dropped (a picture): it is no
+                # verbatim material, the file it reads is a file of the document
+                parts.append(rng.choice(['\\begin{tikzpicture}\n\\draw (0,0); ' + call + '\n\\end{tikzpicture}\n',
+                                         'x \\begin{tikzpicture}' + call + '\\end{tikzpicture} y\n']))
+                items.append(w)
+            elif ctx == 'env':
+                parts.append(rng.choice(['\\begin{itemize}\\item ' + call + '\\end{itemize}\n',
+                                         '\\begin{quote}' + call + '\\end{quote}\n',
+                                         '\\begin{unknownenv}' + call + '\\end{unknownenv}\n',
+                                         '\\begin{proof}' + call + '\\end{proof}\n']))
                 items.append(w)
             elif ctx == 'comment':
                 parts.append('% ' + call + '\n')
